@@ -78,4 +78,11 @@ def run(tier: str, rep: Report):
     def keyfn(evid, clauses):
         return f"{PID}/{'+'.join(sorted(set(c.split('.', 1)[1] for c in clauses)))}/ver{evid.split(':')[1]}"
 
+    def corrupt(e):
+        if e.get("kind") != "pairs" or not e["eq"] or not e["eq"][0][2]:
+            return None
+        e["eq"][0][2] = e["eq"][0][2][1:]       # one pair that must be equal is reported unequal
+        return e
+
+    df.negative_control(rep, [f for f in files if "pairs-" in f], "Trace_Values", corrupt, ("P08.eq",), keep_first_line=True)
     df.classify(rep, fails, ("P08.",), PID, keyfn)
